@@ -239,6 +239,12 @@ def draw_vals(rng, shape, cplx, zeros):
             v[0] = 1.25
         if not np.any(v == 0):
             v[-1] = 0.0
+    if n >= 1 and rng.random() < 0.3:
+        # an entry just below a power of two: x0+h lies in the next binade, so (x0+h)-h is not x0 in about half of
+        # the cases -- only an exact restore leaves such a state bit-identical
+        i = int(rng.integers(0, n))
+        edge = 2.0 ** int(rng.integers(-2, 3)) * (1.0 - int(rng.choice([1, 2, 3, 5, 7])) * 2.0 ** -53)
+        v[i] = edge + (1j * v[i].imag if cplx else 0.0)
     return v.reshape(shape)
 
 
@@ -837,7 +843,11 @@ def run_poly(case, ctx):
             bad = stats.get("unmatched_fd_reports", [])
             slk = _slice_kinds(fromlist)
             n_im_copy = sum(1 for e in recs if e["dir"] == "im" and slk[e["inp"]] == "copy")
-            if bad and all(float(reports[i][2]) == 0.0 for i in bad) and len(bad) <= n_im_copy:
+            # hypothesis: the imaginary perturbation never reaches an input whose state getter returns a copy
+            # (fancy-indexed SignalSlice), so exactly those reports carry 0.0; accepted only if it explains the stream
+            recs2 = [dict(e, fd=0.0, allow=0.0) if (e["dir"] == "im" and slk[e["inp"]] == "copy") else e for e in recs]
+            if bad and n_im_copy and all(float(reports[i][2]) == 0.0 for i in bad) and \
+                    M.judge_stream([(r[0], r[1], r[2]) for r in reports], recs2)[0] is None:
                 mech = "numerical/imaginary-perturbation-not-applied-to-copying-input-signal"
                 i0 = bad[0]
                 wit = {"report_index": i0, "x0": complex(np.asarray(reports[i0][0]).reshape(-1)[0]),
@@ -849,11 +859,26 @@ def run_poly(case, ctx):
                 mech = "numerical/seed-clobbered-by-module-sensitivity"
         outside = [n for n, _, _ in tolist if P.is_network and n in P.producer and not (i_first <= P.producer[n] <= i_last)]
         if mech.startswith("analytical/") and outside and len(tolist) > 1:
-            # the seed of an output produced outside the executed sub-network is never reset and is read back as the
-            # sensitivity of a later output's pass
-            mech = "sensitivity-left-set/output-outside-executed-subnetwork"
-            wit["consequence"] = "analytical value of a later output contains the seed of an earlier one"
-            wit["outputs_outside_range"] = outside
+            # hypothesis: the seed of an output produced outside the executed sub-network is never reset and is read
+            # back in the passes of the later outputs.  Accepted only if that model reproduces the whole stream.
+            recs2 = [dict(e) for e in recs]
+            acc = {}
+            for o, ((n, _, _), W) in enumerate(zip(tolist, Ws)):
+                seeds = {k: v.copy() for k, v in acc.items()}
+                seeds[n] = seeds.get(n, 0) + W
+                sens_o = P.ref.reverse(info["vals"], seeds)
+                for e in recs2:
+                    if e["out"] == o:
+                        g = sens_o.get(fromlist[e["inp"]][0])
+                        e["an"] = 0.0 if g is None else float(np.real(g[e["flat"]]) if e["dir"] == "re" else np.imag(g[e["flat"]]))
+                        e["tol_an"] = e["tol_an"] + 1e-12 * (abs(e["an"]) + float(np.sum(np.abs(W))))
+                if n in outside:
+                    acc[n] = acc.get(n, 0) + W
+            mech2, _, _ = M.judge_stream([(r[0], r[1], r[2]) for r in reports], recs2)
+            if mech2 is None:
+                mech = "sensitivity-left-set/output-outside-executed-subnetwork"
+                wit["consequence"] = "analytical values of later outputs contain the never-reset seed of an earlier output"
+                wit["outputs_outside_range"] = outside
         if mech.startswith("reports/") and kz and "x0" in wit and complex(wit["x0"]) == 0:
             zero_scalars = [n for n, sl, obj in fromlist if not isinstance(obj.state, np.ndarray) and obj.state == 0]
             mech = ("reports/zero-scalar-input-perturbed-despite-keep_zero_structure" if zero_scalars and
